@@ -269,6 +269,48 @@ def schedule_items(ctx: Ctx, n_sim: int) -> tuple[list[dict], dict]:
     return items, info
 
 
+def action_level(ctx: Ctx, forced: list[dict]) -> dict:
+    """Action-level trace validation (spec/EngineTrace.tla) of the runs that followed a full unit-phase skeleton without divergence."""
+    batches: dict[int, list] = {0: [], 1: []}
+    index: dict[int, list[int]] = {0: [], 1: []}
+    for i, r in enumerate(forced):
+        if not r.get("origin", "").startswith(("simulate:Engine", "counterexample:Engine")) or r["hdr"]["diverged"]:
+            continue
+        lines = []
+        for ln in r["lines"]:
+            if ln["e"] == "G":
+                lines.append({"e": "G", "role": ln["role"], "tok": ln["tok"], "k": "", "st": "", "sc": 0})
+            elif ln["e"] == "Y" and (ln["k"] in ("ES", "EF") or ln["ph"] == 4):
+                lines.append({"e": "Y", "role": "", "tok": "", "k": ln["k"], "st": ln["st"], "sc": (100 + ln["op"]) if ln["k"] in ("ScS", "ScF", "NFE") else 0})
+        mf = 1 if r["hdr"]["maxfail"] else 0
+        batches[mf].append(lines)
+        index[mf].append(i)
+    info = {"runs": 0, "accepted": 0, "rejected": [], "states": 0}
+    for mf in (0, 1):
+        if not batches[mf]:
+            continue
+        path = ctx.path("etrace_%d.json" % mf)
+        tlc.write_json(path, batches[mf])
+        res = tlc.require_ok(tlc.run_tlc("EngineTrace", "EngineTrace_mf%d.cfg" % mf, env={"OBS_FILE": path}, workers=1, timeout=1800, heap="8g"),
+                             "EngineTrace")
+        acc = {p[1] for p in res.prints if isinstance(p, list) and p and p[0] == "ACCEPT"}
+        inv = {p[1] for p in res.prints if isinstance(p, list) and p and p[0] == "INVARIANT"}
+        stuck: dict[int, int] = {}
+        for p in res.prints:
+            if isinstance(p, list) and p and p[0] == "STUCK":
+                stuck[p[1]] = max(stuck.get(p[1], 0), p[2])
+        info["runs"] += len(batches[mf])
+        info["states"] += res.distinct
+        for k in range(1, len(batches[mf]) + 1):
+            if k in acc and k not in inv:
+                info["accepted"] += 1
+            else:
+                line = stuck.get(k, 0)
+                info["rejected"].append({"run": index[mf][k - 1], "line": line, "invariant": k in inv,
+                                         "next": batches[mf][k - 1][line - 1] if 0 < line <= len(batches[mf][k - 1]) else None})
+    return info
+
+
 def run_property(ctx: Ctx, pid: str, design_cfgs: list[str]) -> Outcome:
     out = Outcome()
     rng = random.Random(ctx.seed * 7919 + int(pid[1:]))
@@ -325,6 +367,14 @@ def run_property(ctx: Ctx, pid: str, design_cfgs: list[str]) -> Outcome:
             sinfo["diverged"], next(r["hdr"]["diverged"] for r in forced if r["hdr"]["diverged"])))
     runs = refs + disturbed + forced
     t_runs = time.time() - t1
+    # 3c. action-level trace validation of the fully forced unit-phase runs against Engine.tla's own actions
+    alevel = action_level(ctx, forced)
+    for rej in alevel["rejected"][:5]:
+        run = forced[rej["run"]]
+        out.violations.append(Violation(
+            "%s:EngineTrace:%s" % (pid, "invariant" if rej["invariant"] else "no-engine-action-explains-line"),
+            "forced run %s is not a behaviour of Engine.tla: stuck before line %s (%s)" % (run["origin"], rej["line"], rej["next"]),
+            {"kind": "run", "desc": run["desc"], "clause": "EngineTrace", "line": rej["line"]}))
     # 4. trace validation
     rejected, accepted, jres = judge(ctx, runs, pid)
     own = 0
@@ -357,7 +407,7 @@ def run_property(ctx: Ctx, pid: str, design_cfgs: list[str]) -> Outcome:
                 "every/sampled stop position, Ctrl-C position and single fault per the recipe of %s; non-trivial = run with a bad API answer or a disturbance" % (len(fam), pid),
         "exhaustive": False,
         "design_models": design, "old_designs_refuted": refuted,
-        "forced_schedules": sinfo,
+        "forced_schedules": sinfo, "action_level_traces": {k: v for k, v in alevel.items() if k != "rejected"},
         "family_size": len(fam), "base_descriptors": len(plain), "disturbed_runs": len(todo), "faults_fired": fired,
         "accepted": len(accepted), "rejected_own": own, "rejected_foreign": sum(foreign.values()),
         "trace_lines": sum(len(r["lines"]) for r in runs), "judge_states": jres.distinct,
